@@ -472,7 +472,12 @@ pub fn make_server_for(cfg: usize, msg: usize) -> Server<Cat> {
     }
     if matches!(cfg, 5 | 6 | 9) {
         let mut p = RrlParams::new(2, 2, 2, 1).unwrap();
-        p.set_slip(if cfg == 5 { 1 } else { 2 });
+        // all three slip regimes: always slip (1), random (2), always drop (0)
+        p.set_slip(match cfg {
+            5 => 1,
+            6 => 2,
+            _ => 0,
+        });
         p.set_size(3).unwrap();
         s.set_rrl_params(Some(p));
     }
@@ -544,7 +549,7 @@ impl Prop for C01 {
         format!("{file}|{masked}")
     }
     fn rule() -> String {
-        format!("one execution = one (request shape, server configuration) pair: {} shapes quick / 1000 thorough (plain, EDNS with options and odd versions, big RRsets with swept payload sizes, TSIG-signed with known/unknown keys, truncated MACs and maximal 255-octet key/algorithm names, extra records in every section, compressed and mixed-case names, opcodes 0-15, QTYPE ANY/AXFR/IXFR/meta, QCLASS ANY/CH, NOTIFY/UPDATE-shaped, two questions, misplaced OPT/TSIG, header only, answers of more than 16 KiB made of name-bearing records, question-less requests with OPT (odd versions) or TSIG) x {} configurations (empty catalog; loaded/NotYetLoaded/FailedToLoad entries; zones with malformed stored RDATA, missing or malformed SOA; two configurations whose zones are drawn from a seed per request shape: every owner the corpus asks about holds 0-3 RRsets of assorted types with valid, cut, empty, random, pointer-bearing or over-long RDATA; key sets; RRL slip 1/2; payload 512/1232/65535); per pair, exhaustively: truncation to every length, at every offset substitution by 10 values, each header count set to 0/+1/0xffff, every RR's RDLENGTH set to 0..80, the advertised EDNS payload size set to every value 0..1400 (+ large ones), junk of 1/2/11/300 octets appended, tail duplicated, both transports; then seeded random pairs of those faults. Every pair is non-trivial and distinct by construction", 200, N_CFG)
+        format!("one execution = one (request shape, server configuration) pair: {} shapes quick / 1000 thorough (plain, EDNS with options and odd versions, big RRsets with swept payload sizes, TSIG-signed with known/unknown keys, truncated MACs and maximal 255-octet key/algorithm names, extra records in every section, compressed and mixed-case names, opcodes 0-15, QTYPE ANY/AXFR/IXFR/meta, QCLASS ANY/CH, NOTIFY/UPDATE-shaped, two questions, misplaced OPT/TSIG, header only, answers of more than 16 KiB made of name-bearing records, question-less requests with OPT (odd versions) or TSIG) x {} configurations (empty catalog; loaded/NotYetLoaded/FailedToLoad entries; zones with malformed stored RDATA, missing or malformed SOA; two configurations whose zones are drawn from a seed per request shape: every owner the corpus asks about holds 0-3 RRsets of assorted types with valid, cut, empty, random, pointer-bearing or over-long RDATA; key sets; RRL slip 0/1/2; payload 512/1232/65535); per pair, exhaustively: truncation to every length, at every offset substitution by 10 values, each header count set to 0/+1/0xffff, every RR's RDLENGTH set to 0..80, the advertised EDNS payload size set to every value 0..1400 (+ large ones), junk of 1/2/11/300 octets appended, tail duplicated, both transports; then seeded random pairs of those faults. Every pair is non-trivial and distinct by construction", 200, N_CFG)
     }
     fn assumptions() -> Vec<String> {
         vec![
